@@ -32,7 +32,9 @@ type c12sym struct {
 	k int
 }
 
-func (s c12sym) String() string { return fmt.Sprintf("%s:%s", []string{"dir", "file", "del", "deldir"}[s.k], s.p) }
+func (s c12sym) String() string {
+	return fmt.Sprintf("%s:%s", []string{"dir", "file", "del", "deldir"}[s.k], s.p)
+}
 
 func c12Syms() []c12sym {
 	var out []c12sym
